@@ -263,6 +263,11 @@ func Sha(b []byte) string {
 	return hex.EncodeToString(s[:8])
 }
 
+// Res records a result to be joined across build flavours by the driver (key must be flavour independent).
+func (cs *Case) Res(kind string, value string) {
+	cs.Ctx.emit(event{"t": "res", "k": fmt.Sprintf("%s#%d", kind, cs.Idx), "v": value})
+}
+
 func (c *Ctx) Cover(key string)         { c.cover[key]++ }
 func (c *Ctx) CoverN(key string, n int) { c.cover[key] += n }
 
